@@ -594,6 +594,12 @@ def expr_guards(parents: dict[int, ast.AST], node: ast.AST, stop: Optional[set[i
                 for g in par.generators:
                     for cond in g.ifs:
                         out += atom_facts(cond, True)
+            else:
+                # a later generator (its iterable, its filters) runs under the filters of the generators before it
+                k = next((i for i, g in enumerate(par.generators) if g is child), 0)
+                for g in par.generators[:k]:
+                    for cond in g.ifs:
+                        out += atom_facts(cond, True)
         elif isinstance(par, ast.comprehension):
             if any(child is c for c in par.ifs):
                 idx = next(i for i, c in enumerate(par.ifs) if c is child)
